@@ -39,7 +39,12 @@ CLASSES = (
     "user keeps, results and interpolators handed out earlier re-read after later calls, a second call drawing onto the same "
     "Axes, every argument passed by keyword, python -O, repeated elements inside arrays, bit-evenly spaced grids, nearly dead "
     "oils, mobility scale factors over 30 decades, extra / partly empty / relabelled columns and record labels, blank cells, "
-    "time grids evenly spaced with nt proportional to nx, schedules held until complete relaxation"
+    "time grids evenly spaced with nt proportional to nx, schedules held until complete relaxation, node counts above 1000, "
+    "arrays of 10^4 .. 3x10^5 elements, production tables of 3000 rows, time grids that start far from zero (up to 1e6) or "
+    "are typed as np.arange(n) * 0.01 with decimal shifts, reference / base pressures of exactly zero, residuals summing to "
+    "within 1e-12 of one, immobile stretches (zero mobility over consecutive rows), fluids first seen in single precision, "
+    "objects re-read after another object used them, continued histories (old grid an exact prefix of the new one), two "
+    "figures open at once"
 )
 
 os.makedirs(OUT, exist_ok=True)
